@@ -330,6 +330,9 @@ func (p Prop[C]) Main(t *testing.T) {
 	// committed regression corpus first
 	files, _ := filepath.Glob(filepath.Join("testdata", "regress", p.Test, "*.json"))
 	sort.Strings(files)
+	if os.Getenv("VERIF_NO_REGRESS") == "1" { // sensitivity experiments: generator only
+		files = nil
+	}
 	for _, f := range files {
 		c, _, err := readReplay[C](f)
 		if err != nil {
